@@ -1,5 +1,5 @@
 ENGINES = [
-    {"name": "pyvc", "path": "/verif/pyvc", "serves_properties": ["C01", "C02", "C04", "C05", "C08", "C09"],
+    {"name": "pyvc", "path": "/verif/pyvc", "serves_properties": ["C01", "C02", "C04", "C05", "C08", "C09", "C17"],
      "kind_free_text": "own verification-condition generator: symbolic execution of the AST of the real functions (re-read from /repo on every run) against sidecar contracts, discharged with z3; bounded run-time contract checking of the real functions as labelled stand-in"},
 ]
 NOTES = ("Contract-based deductive verification with an own VC generator (PyVC) over the real source; see DESIGN.md. "
@@ -35,5 +35,10 @@ CHECKS.append(
      "text": "the closure of make_subst_func proved to be the statement's look-up rule (node key, then Variable name, else None); SubstitutionMapper.map_variable/map_subscript/map_lookup proved to return sigma(node) itself when not None (no re-substitution) and otherwise the identity image; every inherited map_<K> proved against the identity contract (same extra arguments, same object when unchanged); the semantic commutation with evaluation is validated exhaustively on depth<=2 trees x 16 substitution maps x environment box against den_sigma (the substitution lemma over den is not machine-proved)",
      "note": "sigma uninterpreted and pure; M-IND; C04/C05 contracts; the lemma den(Subst(e,s),env) = den_s(e,env) and substitute()'s dict handling are bounded only",
      "technique": "deductive: per-method VCs (interception + identity contract), refinement of the real closure, z3; exhaustive bounded differential evaluation for the semantic lemma"})
+CHECKS.append(
+    {"id": "C17", "category": "proof",
+     "text": "the mechanism that makes pickles hash-seed independent is proved per node class (incl. fixture and legacy classes): __getstate__ returns exactly the fields (the cached, process-local hash never enters the state), __setstate__ assigns exactly the fields and never _hash_value, a fresh hash is computed from the fields, SpecEq => equal hash; the inputs of the persistent digest are proved free of id()/hash()/set order; the two-process statement itself is executed: producer/consumer interpreters with different PYTHONHASHSEED and -O, all protocols, histories of hash/compare/pickle operations, compiled expressions",
+     "note": "pickle/copyreg semantics, str.encode/repr/hashlib determinism are trusted; the cross-process runs are a bounded stand-in (not proved); known findings C17-digest-kw-order and C17-digest-constant-type (digest does not respect ==)",
+     "technique": "deductive: per-class state-method and hash obligations (shared with C01), taint scan of the symbolic digest log, z3; bounded two-process execution"})
 _PENDING = "check not built yet in this session (planned per DESIGN.md section 5); not claimed until its check exists"
 NOT_APPLICABLE = [{"property_id": f"C{i:02d}", "reason": _PENDING} for i in range(1, 21) if f"C{i:02d}" not in {c["id"] for c in CHECKS}]
